@@ -126,7 +126,8 @@ def make_func(ctx: Ctx, spec: dict, flavour: str):
         sig = ", ".join((f"{p}: _t_{p}" if p in ann else p) + (f" = _d_{p}" if p in defaults else "") for p in params)
     ret = " -> _t_return" if "return" in ann else ""
     args = "(" + "".join(f"{p}, " for p in params) + ")"
-    is_async = flavour == "async" and kind in ("func",)
+    is_async = flavour == "async" and kind in ("func",) and not spec.get("force_sync")
+    coro_def = is_async and bool(spec.get("coro_def"))  # plain `def` that returns a coroutine (awaited by the executor)
     fail = spec.get("fail")
     table = spec.get("table")
     injected = ctx.injected.setdefault(fid, Injected(fid, empty=bool(spec.get("fail_empty"))))
@@ -170,7 +171,10 @@ def make_func(ctx: Ctx, spec: dict, flavour: str):
             raise injected
 
     if is_async:
-        src = f"async def {_pyname(fid)}({sig}){ret}:\n    return await _impl('{fid}', {args})\n"
+        if coro_def:
+            src = f"def {_pyname(fid)}({sig}){ret}:\n    return _impl('{fid}', {args})\n"
+        else:
+            src = f"async def {_pyname(fid)}({sig}){ret}:\n    return await _impl('{fid}', {args})\n"
 
         async def _impl(_fid, a):
             ctx.inflight += 1
@@ -191,8 +195,13 @@ def make_func(ctx: Ctx, spec: dict, flavour: str):
         src = f"def {_pyname(fid)}({sig}){ret}:\n    return _impl('{fid}', {args})\n"
 
         def _impl(_fid, a):
-            _pre(a)
-            return result_for(a)
+            ctx.inflight += 1
+            ctx.peak = max(ctx.peak, ctx.inflight)
+            try:
+                _pre(a)
+                return result_for(a)
+            finally:
+                ctx.inflight -= 1
 
     ns = {"_impl": _impl}
     for p, v in defaults.items():
